@@ -145,6 +145,7 @@ package interp
 //@ func arrayLit(n)
 //@   props C04
 //@   opt gen = true
+//@   opt record-calls = zero
 //@   opt safety = off
 //@   opt fn-values = pure
 //@   opt opaque-calls = *
@@ -155,6 +156,8 @@ package interp
 //@   invariant max-covers-all: forall(k, 0, gi, index[k] < max) && max >= 0
 //@   exec (f) (ret)
 //@   exec-ensures continues: ret == next
+//@   exec-ensures [local:a] built-in-a-value-made-for-this-evaluation: (kind == reflect.Slice ==> a == rvMakeSliceOp(typ, max, max)) && (kind != reflect.Slice ==> called(zero) && a == lastRes(zero, 0))
+//@   exec-ensures [local:a] destination-receives-the-new-array: rvIface(slotOf2(f, n, n.findex)) == rvIface(a) && rvInt(slotOf2(f, n, n.findex)) == rvInt(a)
 //@   exec-loop 1
 //@   step element-i-stored-at-its-index: rvIface(rvIndexOp(a, index[i])) == rvIface(v(f)) && rvInt(rvIndexOp(a, index[i])) == rvInt(v(f))
 
